@@ -25,9 +25,9 @@ def run(ctx):
     ctx.configs["tools"] = info
     ctx.cfg = "tools"
     progs = {n: load_program("tools", n)[0] for n in crates}      # with helper inlining / combinator expansion
-    tool_rules.check_crc(ctx, progs["e57_check_crc"], "R1")
-    tool_rules.extract_xml(ctx, progs["e57_extract_xml"], "R2")
-    tool_rules.from_xyz(ctx, progs["e57_from_xyz"], "R3")
-    tool_rules.to_xyz(ctx, progs["e57_to_xyz"], "R4")
-    tool_rules.unpack(ctx, progs["e57_unpack"], "R5")
+    ctx.call(tool_rules.check_crc, progs["e57_check_crc"], "R1")
+    ctx.call(tool_rules.extract_xml, progs["e57_extract_xml"], "R2")
+    ctx.call(tool_rules.from_xyz, progs["e57_from_xyz"], "R3")
+    ctx.call(tool_rules.to_xyz, progs["e57_to_xyz"], "R4")
+    ctx.call(tool_rules.unpack, progs["e57_unpack"], "R5")
     ctx.cfg = None
